@@ -449,10 +449,35 @@ func (n *gdNamer) funcShape(fn *ssa.Function) string {
 	return name
 }
 
+// gdShort shortens source text for use in a key. The cut must not depend on
+// how long identifiers are (a rename must shorten to the renamed form of the
+// same prefix), so the budget n is spent per token: an identifier costs a
+// fixed amount whatever its spelling, any other character costs one, and the
+// text is cut at a token boundary.
 func gdShort(s string, n int) string {
 	s = strings.Join(strings.Fields(s), " ")
-	if len(s) > n {
-		return s[:n] + "…"
+	if len(s) <= n/2 {
+		return s
+	}
+	const identCost = 6
+	isIdent := func(c byte) bool {
+		return c == '_' || c >= 'a' && c <= 'z' || c >= 'A' && c <= 'Z' || c >= '0' && c <= '9' || c >= 0x80
+	}
+	cost := 0
+	for i := 0; i < len(s); {
+		j := i + 1
+		step := 1
+		if isIdent(s[i]) {
+			for j < len(s) && isIdent(s[j]) {
+				j++
+			}
+			step = identCost
+		}
+		if cost+step > n {
+			return s[:i] + "…"
+		}
+		cost += step
+		i = j
 	}
 	return s
 }
